@@ -27,6 +27,9 @@ var zzC15Shapes = [][]zzLockReq{
 	{{Write: []string{"x"}}, {Read: []string{"x"}}, {Read: []string{"x"}}},
 	{{Read: []string{"x"}}, {Write: []string{"x"}}, {Read: []string{"x"}}},
 	{{Write: []string{"x"}}, {Write: []string{"x"}, Cancel: true}, {Write: []string{"x"}}},
+	{{Read: []string{"x", "y"}}, {Read: []string{"x"}}, {Write: []string{"y"}}},
+	{{Read: []string{"x", "y"}}, {Read: []string{"y"}}, {Write: []string{"x"}}},
+	{{Read: []string{"x", "y"}, Write: []string{"z"}}, {Read: []string{"x"}, Write: []string{"z"}}, {Write: []string{"y"}}},
 }
 
 func ZZ_C15N() int { return len(zzC15Shapes) }
@@ -121,6 +124,8 @@ var zzC15Stages = []zzC15Stage{
 	{[]zzLockReq{{Read: []string{"x"}}, {Read: []string{"x"}}, {Write: []string{"x"}}}, []int{0, 1, 2}},
 	{[]zzLockReq{{Write: []string{"x", "y"}}, {Write: []string{"x"}, Cancel: true}, {Write: []string{"y"}}}, []int{0, 1, 2}},
 	{[]zzLockReq{{Write: []string{"x"}}, {Write: []string{"y"}}, {Write: []string{"x", "y"}}}, []int{1, 0, 2}},
+	{[]zzLockReq{{Read: []string{"x", "y"}}, {Read: []string{"x"}}, {Write: []string{"y"}}}, []int{0, 1, 2}},
+	{[]zzLockReq{{Read: []string{"x", "y"}}, {Read: []string{"y"}}, {Write: []string{"y"}}}, []int{1, 0, 2}},
 }
 
 func ZZ_C15StageN() int { return len(zzC15Stages) }
